@@ -37,7 +37,9 @@ def build(reg):
         ('progress', 'result > 0 ==> len(flat(self.buffer)) < len(flat(old(self.buffer)))')]
     T.append(fl)
     # ---- relay: upstream -> client
-    PRE = proxyplugin.PP_PRE + [('no-pool', 'not self.flags.enable_conn_pool')]
+    from . import externs
+    externs.add_strfuns(reg)
+    PRE = proxyplugin.PP_PRE + [('no-pool', 'not self.flags.enable_conn_pool'), ('sendbuf', 'self.flags.max_sendbuf_size >= 0')]
     CM = ['self.client.buffer', 'self.client._num_buffer']
     DELTA = 'self.upstream.rx[len(old(self.upstream.rx)):]'
     UM = ['self.upstream.buffer', 'self.upstream._num_buffer', 'self.upstream.wire',
@@ -62,6 +64,117 @@ def build(reg):
         loops={0: LoopSpec(inv=[], modifies=['teardown']),
                1: LoopSpec(index='k', snapshot=['raw'], modifies=['raw'],
                            inv=['not isnone(raw)', 'raw == pre_raw'])}))
+    T += more_relay_contracts(reg, PRE, CM, UM)
+    return T
+
+
+def more_relay_contracts(reg, PRE, CM, UM):
+    """client -> upstream for tunnels / post-request bytes, the upstream flush, the plain tunnel
+    handler, the reverse proxy's upstream handler."""
+    T = []
+    UB = 'self.upstream.buffer'
+    HP = ('obj', 'HttpParser')
+    reg.contract('<plugin>', 'ProxyBasePlugin.handle_client_request', params={'request': HP}, self_cls='ProxyBasePlugin',
+                 assumed=True, modifies=[], result=('opt', HP), raises={'Exception': []})
+    reg.contract(proxyplugin.PF, 'HttpParser.build', self_cls='HttpParser', assumed=True, result='bytes', modifies=[],
+                 params={'disable_headers': ('opt', ('list', 'bytes')), 'for_proxy': 'bool', 'host': ('opt', 'bytes')},
+                 raises={'AssertionError': []}, note='C02')
+    reg.contract(proxyplugin.PF, 'HttpParser.del_headers', self_cls='HttpParser', params={'headers': ('list', 'bytes')},
+                 assumed=True, modifies=['self.headers'], raises={}, note='C08')
+    # --- HttpProxyPlugin.on_client_data, opaque tunnel: bytes go to the upstream as received
+    T.append(reg.contract(
+        SV, 'HttpProxyPlugin.on_client_data', self_cls='HttpProxyPlugin', params={'raw': 'mv'},
+        requires=PRE + [('tunnel', 'not isnone(self.upstream) and not self.upstream.closed and self.request._is_https_tunnel'),
+                        ('opaque', 'True')],
+        modifies=[UB, 'self.upstream._num_buffer', 'self.pipeline_request'],
+        ensures=[('tunnel-bytes-queued-as-received-or-intercepted',
+                  '%s == old(%s) + [raw] or %s == old(%s) or len(%s) == len(old(%s)) + 1' % (UB, UB, UB, UB, UB, UB)),
+                 ('upstream-repr', 'self.upstream._num_buffer == len(%s)' % UB),
+                 ('client-untouched', 'unchanged(self.client.buffer, self.client.wire)')],
+        raises={'Exception': []}, loops={0: LoopSpec(unroll=1), 1: LoopSpec(unroll=1)},
+        note='with interception off (_tls_intercept_enabled False) exactly the first disjunct: see clause below'))
+    reg.contracts['HttpProxyPlugin.on_client_data'].ensures.append(
+        ('opaque-tunnel-relays-exactly', '(not tls_intercept) ==> %s == old(%s) + [raw]' % (UB, UB)))
+    ti = reg.contracts['HttpProxyPlugin._tls_intercept_enabled']
+    ti.ghost_init = {'tls_intercept': 'bool'}
+    ti.ensures = [('recorded', 'result == tls_intercept')]
+    reg.contracts['HttpProxyPlugin.on_client_data'].ghost_init = {'tls_intercept': 'bool'}
+    # --- upstream flush on write readiness
+    T.append(reg.contract(
+        SV, 'HttpProxyPlugin.write_to_descriptors', self_cls='HttpProxyPlugin', params={'w': ('list', 'int')}, result='bool',
+        requires=PRE, modifies=[UB, 'self.upstream._num_buffer', 'self.upstream.wire', 'self.upstream', 'self.upstream.dead'],
+        ensures=[('upstream-stream-law', '(not isnone(self.upstream) and not isnone(old(self.upstream))) ==> '
+                                         'self.upstream.wire + flat(%s) == old(self.upstream.wire) + flat(old(%s))' % (UB, UB)),
+                 ('would-block-retries', '(not result and not isnone(self.upstream) and not isnone(old(self.upstream))) ==> '
+                                         'self.upstream.dead == old(self.upstream.dead)'),
+                 ('client-untouched', 'unchanged(self.client.buffer, self.client.wire)')],
+        raises={}, loops={0: LoopSpec(inv=[], modifies=['teardown'])}))
+    # --- plain TCP tunnel handler (BaseTcpTunnelHandler)
+    TH = 'proxy/core/base/tcp_tunnel.py'
+    H = dict(reg.classes['HttpProtocolHandler']['fields'])
+    H['upstream'] = ('opt', ('obj', 'TcpServerConnection'))
+    reg.klass('BaseTcpTunnelHandler', py='proxy.core.base.tcp_tunnel:BaseTcpTunnelHandler', fields=H)
+    TS = 'proxy/core/base/tcp_server.py'
+    WB = 'self.work.buffer'
+    WSTREAM = 'self.work.wire + flat(%s) == old(self.work.wire) + flat(old(%s))' % (WB, WB)
+    WREPR = 'self.work._num_buffer == len(%s)' % WB
+    WMOD = [WB, 'self.work._num_buffer', 'self.work.wire', 'self.must_flush_before_shutdown']
+    T.append(reg.contract(
+        TS, 'BaseTcpServerHandler.handle_events', self_cls='BaseTcpTunnelHandler',
+        params={'readables': ('list', 'int'), 'writables': ('list', 'int')}, result='bool',
+        requires=handler.HANDLER_PRE, alias=handler.HANDLER_ALIAS, modifies=WMOD + ['self.work.dead'],
+        raise_modifies=WMOD + ['self.work.dead'],
+        ensures=[('client-repr', WREPR)],
+        raises={'Exception': [('client-repr', WREPR)]},
+        note='client side of the tunnel handler, composed from the C07 contracts of handle_writables/handle_readables; '
+             'handle_data is the abstract hook (assumed to keep the representation invariant only)'))
+    UDELTA = 'self.upstream.rx[len(old(self.upstream.rx)):]'
+    T.append(reg.contract(
+        TH, 'BaseTcpTunnelHandler.handle_events', self_cls='BaseTcpTunnelHandler',
+        params={'readables': ('list', 'int'), 'writables': ('list', 'int')}, result='bool',
+        requires=handler.HANDLER_PRE + [('upstream-inv', 'isnone(self.upstream) or (self.upstream._num_buffer == len(self.upstream.buffer) '
+                                                         'and not isnone(self.upstream._conn))')],
+        alias=handler.HANDLER_ALIAS,
+        modifies=[WB, 'self.work._num_buffer', 'self.work.wire', 'self.must_flush_before_shutdown', 'self.work.dead',
+                  'self.upstream.buffer', 'self.upstream._num_buffer', 'self.upstream.wire', 'self.upstream.rx', 'self.upstream.dead'],
+        raise_modifies=[WB, 'self.work._num_buffer', 'self.work.wire', 'self.work.dead', 'self.must_flush_before_shutdown', 'self.upstream.rx', 'self.upstream.dead',
+                        'self.upstream.buffer', 'self.upstream._num_buffer', 'self.upstream.wire'],
+        ensures=[('upstream-stream-law', 'isnone(self.upstream) or self.upstream.wire + flat(self.upstream.buffer) == '
+                                         'old(self.upstream.wire) + flat(old(self.upstream.buffer))'),
+                 ('downstream-relay-exactly',
+                  '(not isnone(self.upstream) and len(%s) > 0) ==> (len(%s) > 0 and %s[len(%s) - 1] == mv(%s))' % (UDELTA, WB, WB, WB, UDELTA)),
+                 ('reprs', 'self.work._num_buffer == len(%s) and (isnone(self.upstream) or self.upstream._num_buffer == len(self.upstream.buffer))' % WB)],
+        raises={'Exception': [('client-repr', 'self.work._num_buffer == len(%s)' % WB)]}))
+    # --- reverse proxy / upstream handler mixin
+    TU = 'proxy/core/base/tcp_upstream.py'
+    reg.klass('ReverseProxy', py='proxy.http.server.reverse:ReverseProxy', fields={
+        'client': ('obj', 'HttpClientConnection'), 'upstream': ('opt', ('obj', 'TcpServerConnection')),
+        'server_recvbuf_size': 'int', 'total_size': 'int'})
+    CB = 'self.client.buffer'
+    DELTA = 'self.upstream.rx[len(old(self.upstream.rx)):]'
+    T.append(reg.contract(
+        'proxy/http/server/reverse.py', 'ReverseProxy.handle_upstream_data', self_cls='ReverseProxy', params={'raw': 'mv'},
+        requires=[('client-inv', 'self.client._num_buffer == len(%s)' % CB)], modifies=[CB, 'self.client._num_buffer'],
+        ensures=[('relayed-unmodified', '%s == old(%s) + [raw]' % (CB, CB))], raises={}))
+    T.append(reg.contract(
+        TU, 'TcpUpstreamConnectionHandler.read_from_descriptors', self_cls='ReverseProxy', params={'r': ('list', 'int')}, result='bool',
+        requires=[('client-inv', 'self.client._num_buffer == len(%s)' % CB),
+                  ('upstream-conn', 'isnone(self.upstream) or not isnone(self.upstream._conn)')],
+        modifies=[CB, 'self.client._num_buffer', 'self.upstream.rx', 'self.upstream.dead', 'self.total_size'],
+        raise_modifies=['self.upstream.rx', 'self.upstream.dead'],
+        ensures=[('relay-exactly-once-in-order',
+                  '(not isnone(self.upstream)) ==> ((len(%s) > 0 and %s == old(%s) + [mv(%s)]) or (len(%s) == 0 and %s == old(%s)))' % (
+                      DELTA, CB, CB, DELTA, DELTA, CB, CB)),
+                 ('nothing-without-upstream', 'isnone(self.upstream) ==> %s == old(%s)' % (CB, CB))],
+        raises={'OSError': []}))
+    T.append(reg.contract(
+        TU, 'TcpUpstreamConnectionHandler.write_to_descriptors', self_cls='ReverseProxy', params={'w': ('list', 'int')}, result='bool',
+        requires=[('upstream-inv', 'isnone(self.upstream) or (self.upstream._num_buffer == len(self.upstream.buffer) and not isnone(self.upstream._conn))')],
+        modifies=['self.upstream.buffer', 'self.upstream._num_buffer', 'self.upstream.wire', 'self.upstream.dead'],
+        raise_modifies=['self.upstream.dead'],
+        ensures=[('upstream-stream-law', 'isnone(self.upstream) or self.upstream.wire + flat(self.upstream.buffer) == '
+                                         'old(self.upstream.wire) + flat(old(self.upstream.buffer))')],
+        raises={'OSError': [('unchanged', 'isnone(self.upstream) or unchanged(self.upstream.buffer, self.upstream.wire)')]}))
     return T
 
 
